@@ -41,9 +41,12 @@ PROPS['C19'] = dict(
     rule='unit case = (password 0..40 bytes from three byte classes, challenge from boundary/single-bit/uniform classes): '
          'login_calculate vs independent MD5 of pad32(password) xor 8 x big-endian challenge, plus metamorphic checks '
          '(every challenge bit and each of the first 32 password bytes matter, byte 33 does not, short output buffer '
-         'untouched); system case (1 in 31) = real client + real server over simnet with raw mode: login message bytes '
-         '1..16, client raw login (challenge+1) and server raw reply (challenge-1) compared on the wire. '
-         'non-trivial iff password non-empty (unit) / all three frames observed (system); distinct = hash of choice tape',
+         'untouched); system case (1 in 62) = real client + real server over simnet with raw mode: login message bytes '
+         '1..16, client raw login (challenge+1) and server raw reply (challenge-1) compared on the wire, the challenge forced to a '
+         'boundary value of rand() (0, 1, 2, 2^31-1, 2^31-2, ...) in two cases of three (class system:boundary-challenge); '
+         'client case (1 in 62) = real client against the scripted reference server issuing any 32-bit challenge incl. >= 2^31, 0 and '
+         '0xffffffff: L message = hash(challenge), raw login = hash(challenge+1 mod 2^32), client enters raw mode after hash(challenge-1). '
+         'non-trivial iff password non-empty (unit) / all frames observed (system, client); distinct = hash of choice tape',
     engine_text='rapidcheck over choice tapes; unit shape + simnet (real iodine + iodined)',
     bounds='password <= 40 bytes, 32-bit challenges sampled (boundary values always included)',
     trusted_base=TB_SIM + ['refmd5 self-tested against the RFC 1321 vectors at start-up'],
